@@ -84,7 +84,8 @@ func (g *gen) object(depth int, keyed bool) map[string]interface{} {
 
 func (g *gen) array(depth int) []interface{} {
 	n := g.r.Intn(7)
-	a := make([]interface{}, 0, n)
+	// spare capacity lets a later append share the backing array
+	a := make([]interface{}, 0, n+g.r.Intn(4))
 	kind := g.r.Intn(5)
 	for i := 0; i < n; i++ {
 		switch kind {
@@ -183,6 +184,18 @@ func (g *gen) mutate(v interface{}, depth int) interface{} {
 	case []interface{}:
 		if g.r.Intn(5) == 0 {
 			return v
+		}
+		// aliasing: the new slice shares old's backing array (a prefix, or an
+		// append into spare capacity), as code that edits results in place produces
+		switch g.r.Intn(10) {
+		case 0:
+			if len(v) > 0 {
+				return v[:g.r.Intn(len(v))]
+			}
+		case 1:
+			if cap(v) > len(v) {
+				return append(v, g.value(depth-1))
+			}
 		}
 		a := append([]interface{}{}, v...)
 		ops := 1 + g.r.Intn(3)
